@@ -1,5 +1,87 @@
-"""placeholder until LexGen.tla is built"""
+"""LexGen driver: exports the lexeme table of spec/LexGen.tla, derives the adjacency exclusions
+(maximal munch over the table's own texts), runs the generator and returns
+[{"src", "lex", "outcome", "toks": [[ty, text, sl, sc, el, ec], ...]}]."""
+from __future__ import annotations
+
+import os
+
+from .core import Run
+from .tlc import read_export, run_tlc
+
+CFG = "INIT Init\nNEXT Next\nINVARIANT %s\nCHECK_DEADLOCK FALSE\n"
+CORE = {1, 4, 6, 8, 9, 12, 16, 20, 21, 25, 26, 29, 40, 45, 46, 47, 48, 49, 52, 54, 56, 71, 73, 74, 75, 77, 79, 80, 82, 84, 85, 86, 87, 88, 91, 94, 96, 97, 98}
 
 
-def generate(run, maxlex):
-    return []
+def table(run: Run) -> list[dict]:
+    f = os.path.join(run.dir, "lextable.ndjson")
+    run_tlc(run, "LexGen", CFG % "ExportTable", env={"OUT": f}, name="lextable", consts={"MaxLex": 0, "Use": {1}, "NoAdj": set()}, workers=1)
+    t = read_export(f)[0]["table"]
+    os.remove(f)
+    return t
+
+
+def no_adjacent(tab: list[dict]) -> set:
+    ops = [x["t"] for x in tab if x["cls"] in ("op", "open", "close")]
+    bad = set()
+    for i, a in enumerate(tab, 1):
+        for j, b in enumerate(tab, 1):
+            ca, cb, ta, tb = a["cls"], b["cls"], a["t"], b["t"]
+            fuse = False
+            if ca in ("name", "num") and cb in ("name", "num", "str", "sp"):
+                fuse = True
+            elif ca in ("op", "open", "close") and cb in ("op", "open", "close"):
+                ab = ta + tb
+                fuse = any((o.startswith(ta) and len(o) > len(ta) and (ab.startswith(o) or o.startswith(ab))) for o in ops)
+            elif ca == "num" and tb[0] == ".":
+                fuse = True
+            elif ta[-1] == "." and cb == "num":
+                fuse = True
+            elif ta.endswith("@") and cb in ("name", "sp", "num"):
+                fuse = True
+            elif ca == "ws" and cb == "ws":
+                fuse = True
+            elif ca == "str" and cb == "str" and ta[-1] == tb[0]:
+                fuse = True   # 's''t' reads as one string with a doubled quote only for triple forms; keep it simple
+            if fuse:
+                bad.add((i, j))
+    return bad
+
+
+def generate(run: Run, maxlex: int) -> list[dict]:
+    tab = table(run)
+    bad = no_adjacent(tab)
+    out, seen = [], set()
+    configs = [(set(range(1, len(tab) + 1)), min(maxlex, 2)), (CORE, maxlex)]
+    for ci, (use, n) in enumerate(configs):
+        f = os.path.join(run.dir, f"lexgen{ci}.ndjson")
+        run_tlc(run, "LexGen", CFG % "Export", env={"OUT": f}, name=f"lexgen{ci}", consts={"MaxLex": n, "Use": set(use), "NoAdj": {tuple(x) for x in bad}})
+        for c in read_export(f):
+            if c["src"] in seen:
+                continue
+            seen.add(c["src"])
+            toks = []
+            for t in c["toks"]:
+                ty, i, sl, sc, el, ec = t
+                toks.append([ty, tab[i - 1]["t"] if i else "", sl, sc, el, ec])
+            out.append({"src": c["src"], "lex": c["lex"], "outcome": c["outcome"], "toks": toks})
+        os.remove(f)
+    out.sort(key=lambda c: c["src"])
+    return out
+
+
+def drift(cases: list[dict], results: list[dict]) -> list[dict]:
+    """compare the real token stream with the prediction"""
+    diffs = []
+    for c, r in zip(cases, results):
+        if r.get("hang"):
+            continue
+        if c["outcome"] == "TokenError":
+            if r["toks"] is not None or (r["exc"] or {}).get("cls") != "TokenError":
+                diffs.append({"src": c["src"], "predicted": "TokenError", "observed": (r["exc"] or {}).get("cls") or "tokens"})
+            continue
+        if r["toks"] is None:
+            diffs.append({"src": c["src"], "predicted": "tokens", "observed": (r["exc"] or {}).get("cls")})
+        elif r["toks"] != c["toks"]:
+            k = next((i for i, (a, b) in enumerate(zip(r["toks"], c["toks"])) if a != b), min(len(r["toks"]), len(c["toks"])))
+            diffs.append({"src": c["src"], "at": k, "predicted": c["toks"][k: k + 2], "observed": r["toks"][k: k + 2]})
+    return diffs
